@@ -550,6 +550,11 @@ func customSearch(c *engine.Ctx, b *built, d *dawg.Dawg, callKey, tag string, cs
 			c.Obs("nested:inner_searches", len(ns.runs))
 		}
 	}
+	if msg := overwriteResults(c, solns); msg != "" {
+		c.Violation("Search|results-share-memory|"+w, det, msg, "independent byte slices")
+		return false
+	}
+	nSolns := len(solns)
 	hasUser, hasLib := false, false
 	for _, x := range cs {
 		if _, ok := x.(libCond); ok {
@@ -566,7 +571,7 @@ func customSearch(c *engine.Ctx, b *built, d *dawg.Dawg, callKey, tag string, cs
 	case hasLib:
 		c.Obs("custom:library_searchers_behind_recorder", 1)
 	}
-	if nontrivialResult(b.set, len(solns)) {
+	if nontrivialResult(b.set, nSolns) {
 		c.NT("custom", tag, b.set.Hash(), condsString(cs))
 	}
 	return true
